@@ -442,7 +442,8 @@ fn source_scan() -> Vec<String> {
             }
         }
     }
-    walk(std::path::Path::new("/repo/src"), &mut hits);
+    let repo = std::env::var("VERIF_REPO").unwrap_or_else(|_| "/repo".to_string());
+    walk(std::path::Path::new(&format!("{}/src", repo)), &mut hits);
     hits
 }
 
